@@ -31,15 +31,16 @@ func init() {
 		Rule: "two real endpoints; 1-3 concurrent logical transfers (upload, download, both, one-way write, observe notification with a large body) with position-dependent bodies of size 0, 1, k*b-1, k*b, k*b+1 (k<=5, b = negotiated block size) or random; SZX pair 0..6 (0..7 with BERT on streams); per-datagram deliver / drop / duplicate / reorder / late replay, ticks, cancellation (UDP); segmentation (TCP); " +
 			"non-trivial = at least one transfer needed more than one block; distinct = distinct event-log hash",
 		Scenarios: []Scenario{
-			{Name: "S-BLOCK/udp-faultfree", Weight: 1, Run: func(e *Env) { c04Run(e, TrUDP, false) }},
-			{Name: "S-BLOCK/udp-faults", Weight: 3, Run: func(e *Env) { c04Run(e, TrUDP, true) }},
-			{Name: "S-BLOCK/tcp", Weight: 2, Run: func(e *Env) { c04Run(e, TrTCP, false) }},
-			{Name: "S-BLOCK/scripted-download", Weight: 2, Run: c04ScriptedDownload},
-			{Name: "S-BLOCK/scripted-upload", Weight: 2, Run: c04ScriptedUpload},
+			{Name: "S-BLOCK/udp-faultfree", Weight: 10, Run: func(e *Env) { c04Run(e, TrUDP, false) }},
+			{Name: "S-BLOCK/udp-faults", Weight: 30, Run: func(e *Env) { c04Run(e, TrUDP, true) }},
+			{Name: "S-BLOCK/tcp", Weight: 20, Run: func(e *Env) { c04Run(e, TrTCP, false) }},
+			{Name: "S-BLOCK/scripted-download", Weight: 20, Run: c04ScriptedDownload},
+			{Name: "S-BLOCK/scripted-upload", Weight: 20, Run: c04ScriptedUpload},
+			{Name: "S-BLOCK/huge-upload", Weight: 1, Run: c04HugeUpload},
 		},
 		Quick:    150000,
 		Thorough: 1500000,
-		Require:  []string{"transfer.multiBlock", "transfer.completed", "transfer.failed", "block.staleReplay", "block.etagChange", "block.outOfOrder", "dgram.drop", "dgram.dup", "time.transferTimeout"},
+		Require:  []string{"upload.blockNumberNeedsThreeBytes", "transfer.multiBlock", "transfer.completed", "transfer.failed", "block.staleReplay", "block.etagChange", "block.outOfOrder", "dgram.drop", "dgram.dup", "time.transferTimeout"},
 		Assume: []string{
 			"the property does not promise success: a failed transfer is never a violation; completion in fault-free runs is reported as a probe (transfer.completed vs transfer.failed)",
 			"stream endpoints get an injected, well-formed CSM with Block-Wise-Transfer (any RFC 8323 peer may send it); two go-coap stream endpoints would otherwise never use block-wise with each other",
